@@ -38,6 +38,22 @@ generate_events) against a boring reference interpreter over the generator's own
                         a bot step / an if on the assigned value [else].  The reference evaluates e with Python.
                loop   : while $c < k for k in {3, 6, 12} over five bodies, alone and followed by a bot step,
                         followed to the end (k = 3: also left at any point).
+               res    : every program of sizes 3-4 [3-5] over bot | user | $r = execute <own action>(p=$c) | $r = 1 |
+                        if $r == 1 / if $r / if not $r [else] | while $r (body runs an action) that executes an action
+                        and reads $r, with EVERY scripted result in RES_VALUES (None, falsy and truthy values of the
+                        JSON types) at every execution, <= max_acts executions per history: the variable gets a
+                        result when it already has a value (from the set, from the statement reached again in the
+                        loop or in a second run of the flow, from another execute statement).
+               dyn    : flows that are not in the configuration but arrive IN THE HISTORY: the event
+                        start_flow(flow_id, flow_body) (what generate_flow_from_instructions returns; generate_events
+                        hands a history ending in it to _process_start_flow) with every block of sizes 1-3 [1-4] over
+                        user | bot | $c = 0 | $c = 1 | $c = $c + 1 | if $c == 0/1 [else] | while $c < 2 that is a program
+                        of its own as body, next to every `lay` program of size 1 as configured flow f1.  The event is
+                        offered at every user point at which no flow is being followed and none was left; from then
+                        on the flow it carries is followed / left like a configured one (the reference treats the
+                        event as that flow's start intent).  Demanded: both clauses - in particular the decision for
+                        a history that contains the event is the same on the runtime that processed the event in
+                        an earlier call and on a fresh runtime that is handed the same history.
   driver     plays RuntimeV1_0.generate_events by hand with the runtime's own methods: _compute_next_steps
              (history), append the decided events; after a StartInternalSystemAction the real
              _process_start_action with a registered stub action (returns the scripted result, records the
@@ -84,6 +100,9 @@ generate_events) against a boring reference interpreter over the generator's own
                WHEN_SIG     a `when` block directly followed by another `when` block was entered
                ELSE_DEDENT_SIG  an if/else whose else body is indented less than its then body was executed
                AUG_SIG      `$v += e` / `$v -= e` with an operator in e was executed
+               RES_SIG      the last event is the result of `$v = execute a` for a variable that already had a value
+               DYN_SIG      the history contains a start_flow event (`:unknown-to-another-instance` = used and fresh
+                            runtime decide differently for it)
              (the last two: `:step` = the decided step differs in whatever way, `:context`, `:exception`)
   replay     program text + script of user intents / action results; histories are rebuilt with plain calls.
              For a used-vs-fresh difference all earlier calls on the used runtime (decision, action execution,
@@ -130,13 +149,29 @@ GRAMMARS = {
         "leaves": (("B",), ("U",), ("S", "c", 1), ("D",)),
         "conds": (("c", 0), ("c", 1)), "wk": (), "when": 0,
     },
+    # action results: the variable an action result is assigned to is assigned more than once (a constant first,
+    # the statement reached again in a loop or in a second run of the flow) and read by conditions of three forms
+    "res": {
+        "leaves": (("B",), ("U",), ("X",), ("S", "r", 1)),
+        "conds": (("r", 1), ("r", "truthy"), ("r", "falsy")), "wk": (), "wr": True, "when": 0,
+    },
+    # bodies of flows that arrive in the history (start_flow event) instead of the configuration
+    "dyn": {
+        "leaves": (("U",), ("B",), ("S", "c", 0), ("S", "c", 1), ("I", "c")),
+        "conds": (("c", 0), ("c", 1)), "wk": (2,), "when": 0,
+    },
 }
+
+# what a scripted action returns in the `res` groups (index 0 is the value every group uses): None, the falsy and
+# the truthy values of the JSON types
+RES_VALUES = {"quick": (1, None, 0, "", {"id": 7}), "thorough": (1, None, 0, "", {"id": 7}, [], False, {}, "x", ["a"])}
+DYN_FLOW = "d1"
 
 F2_VARIANTS = {
     "simple": (("U",), ("B",)),
     "two-turn-set": (("U",), ("S", "c", 1), ("B",), ("U",), ("B",)),
 }
-CALLS = {"f1": "s1", "s1": "s2", "s2": None, "f2": None}  # which subflow a `do` in this flow calls
+CALLS = {"f1": "s1", "s1": "s2", "s2": None, "f2": None, "d1": None}  # which subflow a `do` in this flow calls
 
 
 # ------------------------------------------------------------------ generator (SmallCheck style)
@@ -188,6 +223,9 @@ def stmts(n, g, do, wh, loop):
         for k in G["wk"]:
             for body in blocks(n - 1, g, do, wh, True):
                 out.append(("WH", ("c", k), body))
+        if G.get("wr"):  # while $r: as long as the last result is truthy
+            for body in blocks(n - 1, g, do, wh, True):
+                out.append(("WH", ("r", "truthy"), body))
     for nb in range(1, G["when"] + 1):  # when / else when: every branch = its `user` head + a non-empty body
         for sizes in _compositions(n, nb, 2):
             for bodies in itertools.product(*[blocks(sz - 1, g, do, wh, loop) for sz in sizes]):
@@ -214,7 +252,7 @@ def reads_r(block):
         if st[0] == "IF":
             if st[1][0] == "r" or reads_r(st[2]) or reads_r(st[3]):
                 return True
-        elif st[0] == "WH" and reads_r(st[2]):
+        elif st[0] == "WH" and (st[1][0] == "r" or reads_r(st[2])):
             return True
         elif st[0] == "WN" and any(reads_r(b[1] if isinstance(b, list) else b) for b in st[1]):
             return True
@@ -230,8 +268,11 @@ def _sets_counter(block, subs, target):
     return False
 
 
-def _loop_terminates(body, subs, target):
-    """every iteration waits for the user or makes progress on the counter before it can `continue`"""
+def _loop_terminates(body, subs, target, var="c"):
+    """every iteration waits for the user or makes progress on the counter before it can `continue`
+    (a loop on the result variable: every iteration runs an action, whose scripted result decides)"""
+    if var == "r":
+        return any(st[0] == "X" for st in body) and not has(body, "CT") and not has(body, "S")
     first_ok = None
     no_set = not _sets_counter(body, subs, target)
     for i, st in enumerate(body):
@@ -283,7 +324,7 @@ def well_formed(block, defined, subs, target):
         elif k == "WH":
             if st[1][0] not in d:
                 return None
-            if not _loop_terminates(st[2], subs, target):
+            if not _loop_terminates(st[2], subs, target, st[1][0]):
                 return None
             if well_formed(st[2], d, subs, target) is None:
                 return None
@@ -413,6 +454,19 @@ def loop_programs(ks):
     return out
 
 
+def res_programs(sizes):
+    """every program of grammar `res` of these sizes in which a condition reads the result variable"""
+    return [p for n in sizes for p in programs("res", n) if reads_r(p[0]) and has(p[0], "X")]
+
+
+def dyn_programs(main_sizes, body_sizes):
+    """(main, (), None, body): every `lay` program as the configured flow f1 x every block of grammar `dyn` that is a
+    program of its own (reads no variable it has not assigned) as the body of a start_flow event"""
+    bodies = [b for n in body_sizes for b in blocks(n, "dyn", False, True, False)
+              if well_formed(b, set(), {}, None) is not None]
+    return [(main, subs, None, b) for n in main_sizes for main, subs in programs("lay", n) for b in bodies]
+
+
 def aug_programs():
     """f1: user u0; $c = 0; [$c = 1 | $c = 2;] $c <op>= <rhs>; <post>   with post in {nothing, bot,
     if $c == <the value the assignment gives> bot [else bot]} - all combinations"""
@@ -436,10 +490,11 @@ NAMES = {
     "s1": {"u": "su", "m": "sm", "a": "sact"},
     "s2": {"u": "tu", "m": "tm", "a": "tact"},
     "f2": {"u": "j", "m": "o", "a": "oact"},
+    "d1": {"u": "du", "m": "dm", "a": "dact"},
 }
 
 
-def label(main, subs, f2, layout=None):
+def label(main, subs, f2, layout=None, dyn=None):
     """give every user/bot/execute statement its own name and every statement the path of the
     constructs around it.  Result is plain lists (json round-trips).
     layout: indentation step per block kind (see to_colang), kept in the program as P["layout"]"""
@@ -487,12 +542,40 @@ def label(main, subs, f2, layout=None):
     for name, sub in zip(("s1", "s2"), subs):
         P["subs"][name] = lab(sub, name, name, {"u": 1, "m": 0, "a": 0})
     P["flows"]["f2"] = lab(f2, "f2", "f2", {"u": 0, "m": 0, "a": 0})
+    if dyn is not None:
+        # a flow that is NOT in the configuration: it arrives in the history, as the body of a start_flow event.
+        # For the reference it is one more flow whose start "intent" du0 stands for that event.
+        P["flows"][DYN_FLOW] = lab((("U",),) + tuple(dyn), DYN_FLOW, DYN_FLOW, {"u": 0, "m": 0, "a": 0})
+        lines = []
+        _emit(P["flows"][DYN_FLOW][1:], 0, lines, None)
+        P["dyn"] = {"flow": DYN_FLOW, "start": P["flows"][DYN_FLOW][0][1], "body": "\n".join(lines)}
     if layout:
         P["layout"] = {k: int(v) for k, v in dict(layout).items()}
     return P
 
 
 STEP_KINDS = ("flow", "then", "else", "while", "when", "elsewhen")
+
+
+def cond_text(cond, loop=False):
+    """Colang text of a condition (var, k): `$var == k` (if) / `$var < k` (while); k = "truthy" / "falsy":
+    the variable itself / its negation"""
+    var, k = cond
+    if k == "truthy":
+        return f"${var}"
+    if k == "falsy":
+        return f"not ${var}"
+    return f"${var} < {k}" if loop else f"${var} == {k}"
+
+
+def cond_value(cond, ctx, loop=False):
+    """the same condition over the reference context (Python's truth value / comparison)"""
+    var, k = cond
+    if k == "truthy":
+        return bool(ctx.get(var))
+    if k == "falsy":
+        return not ctx.get(var)
+    return ctx[var] < k if loop else ctx.get(var) == k
 
 
 def _step(lay, kind):
@@ -525,13 +608,13 @@ def _emit(block, col, lines, lay=None):
         elif k == "CT":
             lines.append(f"{pad}continue")
         elif k == "IF":
-            lines.append(f"{pad}if ${st[1][0]} == {st[1][1]}")
+            lines.append(f"{pad}if {cond_text(st[1])}")
             _emit(st[2], col + _step(lay, "then"), lines, lay)
             if st[3]:
                 lines.append(f"{pad}else")
                 _emit(st[3], col + _step(lay, "else"), lines, lay)
         elif k == "WH":
-            lines.append(f"{pad}while ${st[1][0]} < {st[1][1]}")
+            lines.append(f"{pad}while {cond_text(st[1], True)}")
             _emit(st[2], col + _step(lay, "while"), lines, lay)
         elif k == "WN":
             for bi, (name, body) in enumerate(st[1]):
@@ -544,7 +627,7 @@ def to_colang(P, order=("f1", "s1", "s2", "f2")):
     (STEP_KINDS; 2 spaces everywhere when absent) - layout only, the program is the same"""
     lay = P.get("layout")
     chunks = []
-    for name in order:
+    for name in order:  # (a flow of P that is not in `order` - the start_flow flow d1 - is not in the text)
         lines = []
         if name in ("s1", "s2"):
             if P["subs"].get(name) is None:
@@ -572,7 +655,8 @@ def prog_size(P):
                 n += 1
         return n
 
-    return sz(P["flows"]["f1"]) - 2 + sum(sz(b) for b in P["subs"].values())
+    return (sz(P["flows"]["f1"]) - 2 + sum(sz(b) for b in P["subs"].values())
+            + (sz(P["flows"][DYN_FLOW]) - 1 if DYN_FLOW in P["flows"] else 0))
 
 
 # ------------------------------------------------------------------ reference interpreter
@@ -651,6 +735,10 @@ def _exec(block, ctx, P, feats, fuel, frame):
         elif k == "X":
             frame["entry"] = False
             res = yield ("exec", st[1], st[-1], st[2], ctx.get(st[3]))
+            if st[2] in ctx:
+                feats.add("exec-result-overwrites")
+                if ctx[st[2]] and not res:
+                    feats.add("falsy-result-over-truthy-value")
             ctx[st[2]] = res
             feats.add("exec-result")
         elif k == "S":
@@ -675,7 +763,7 @@ def _exec(block, ctx, P, feats, fuel, frame):
             var, const = st[1]
             if st[3] and _step(P.get("layout"), "else") < _step(P.get("layout"), "then"):
                 feats.add("else-body-dedented")
-            if ctx.get(var) == const:
+            if cond_value(st[1], ctx):
                 feats.add("if-then")
                 yield from _exec(st[2], ctx, P, feats, fuel, frame)
                 if st[3]:
@@ -688,7 +776,7 @@ def _exec(block, ctx, P, feats, fuel, frame):
         elif k == "WH":
             var, kk = st[1]
             broke = False
-            while ctx[var] < kk:
+            while cond_value(st[1], ctx, True):
                 fuel[0] -= 1
                 if fuel[0] < 0:
                     raise RefFuel()
@@ -797,6 +885,8 @@ def ref_run(P, ahist, tab=None):
                     leave = "unknown-intent"
                 elif own[1] and own[0] not in susp:
                     leave = "start:" + own[0]
+                    if own[0] == DYN_FLOW:
+                        cell.add("flow-from-start_flow-event")
                     gen = _exec(P["flows"][own[0]], ctx, P, cell, fuel, {"entry": True})
                     cur = {"flow": own[0], "gen": gen, "pend": next(gen)}
                     advance(i)
@@ -1001,9 +1091,10 @@ def kind_of(got, expect):
 class World:
     """one program: source, two independent parses, the long-lived (used) runtime object"""
 
-    def __init__(self, P, order=("f1", "s1", "s2", "f2")):
+    def __init__(self, P, order=("f1", "s1", "s2", "f2"), results=None):
         L = lib()
         self.P = P
+        self.dyn = P.get("dyn")
         self.src = to_colang(P, order)
         self.cfg_used = L["RailsConfig"].from_content(colang_content=self.src, yaml_content=YAML)
         self.cfg_fresh = L["RailsConfig"].from_content(colang_content=self.src, yaml_content=YAML)
@@ -1014,6 +1105,8 @@ class World:
         self.tab = _intent_table(P)
         blocks_ = list(P["flows"].values()) + list(P["subs"].values())
         self.results = (0, 1) if any(reads_r(b) for b in blocks_) else (1,)
+        if results is not None:
+            self.results = tuple(results)
         self.calls = 0
         self.trace = []  # (script, k) of every decision call made on the used runtime, in order
         self.state_checks = 0   # calls on the used runtime after which its state was compared
@@ -1045,25 +1138,38 @@ class World:
     def fresh(self):
         return make_runtime(self.cfg_fresh, pickle.loads(self.pristine))
 
+    @staticmethod
+    def decide(rt, hist, plog):
+        """the decision call RuntimeV1_0.generate_events makes for a history: _process_start_flow when the last
+        event is a start_flow event (it registers the flow, then calls _compute_next_steps), _compute_next_steps
+        otherwise"""
+        if hist and hist[-1]["type"] == "start_flow":
+            return _run(rt._process_start_flow(hist, processing_log=plog))
+        return _run(rt._compute_next_steps(hist, processing_log=plog))
+
     def eval_used(self, hist, nid=None):
         self.calls += 1
         if nid is not None:
             self.trace.append(["d", nid[0], nid[1]])
         del self.plog[:]
         try:
-            return guarded(lambda: _run(self.rt_used._compute_next_steps(hist, processing_log=self.plog)))
+            return guarded(lambda: self.decide(self.rt_used, hist, self.plog))
         finally:
             self._after_used_call()
 
-    def eval_fresh(self, hist):
+    def eval_fresh(self, hist, rt=None):
         self.calls += 1
-        rt = self.fresh()
-        return guarded(lambda: _run(rt._compute_next_steps(hist, processing_log=[])))
+        rt = rt or self.fresh()
+        return guarded(lambda: self.decide(rt, hist, []))
 
     # --- what RuntimeV1_0.generate_events does around the decision function
     def user_events(self, intent, first):
         ev = [] if first else [_LIB["new_event_dict"]("Listen")]
-        ev.append(_LIB["new_event_dict"]("UserIntent", intent=intent))
+        if self.dyn and intent == self.dyn["start"]:
+            # not a user turn: the event that brings a flow into the conversation
+            ev.append(_LIB["new_event_dict"]("start_flow", flow_id=self.dyn["flow"], flow_body=self.dyn["body"]))
+        else:
+            ev.append(_LIB["new_event_dict"]("UserIntent", intent=intent))
         return ev
 
     def action(self, rt, hist, result):
@@ -1106,6 +1212,13 @@ def check_node(W, ahist, hist, r, k=0):
     viol = []
     nu, nf = norm(ru), norm(rf)
     feats = "+".join(sorted(r["last"])) or "-"
+    dyn_hist = "flow-from-start_flow-event" in r["cum"]
+    if dyn_hist and nu != nf:
+        return None, [(
+            "dependence", DYN_SIG + ":unknown-to-another-instance",
+            f"the history contains the start_flow event that defines flow {DYN_FLOW}; the runtime that processed that "
+            f"event as the last event of an earlier call decides {_show_res(nu)}, a fresh runtime given the SAME history "
+            f"decides {_show_res(nf)}{_field_diff(nu, nf)}")], None
     if r.get("after_instant"):
         return _check_after_instant(W, ahist, hist, r, ru, rf)
     where = f"{_short(r['from'])}->{_short(r['to'])}" if r["status"] == "strict" else "left-flow-involved"
@@ -1118,6 +1231,10 @@ def check_node(W, ahist, hist, r, k=0):
         cls = ELSE_DEDENT_SIG
     elif "aug-compound-rhs" in r["cum"]:
         cls = AUG_SIG
+    elif dyn_hist:
+        cls = DYN_SIG
+    elif "exec-result-overwrites" in r["last"]:
+        cls = RES_SIG
     if nu != nf:
         du = decode(ru[1])[1] if ru[0] == "ok" else ("exception",)
         df = decode(rf[1])[1] if rf[0] == "ok" else ("exception",)
@@ -1142,7 +1259,7 @@ def check_node(W, ahist, hist, r, k=0):
         return None, viol, step
     if step != r["expect"]:
         k = kind_of(step, r["expect"])
-        if cls in (ELSE_DEDENT_SIG, AUG_SIG):
+        if cls in (ELSE_DEDENT_SIG, AUG_SIG, RES_SIG):
             sig = f"{cls}:step"  # whichever way the decided step differs (nothing / another one / one too many)
         elif cls:
             sig = f"{cls}:{'spurious-step' if k.startswith('spurious') else k}"
@@ -1174,6 +1291,11 @@ WHEN_SIG = "when-block-directly-after-when-block"
 ELSE_DEDENT_SIG = "else-body-indented-less-than-then-body"
 # input class: `$v += e` / `$v -= e` whose right-hand side e contains an operator was executed
 AUG_SIG = "augmented-assignment-with-operator-in-right-hand-side"
+# input class: the last event is the result of `$v = execute a` for a variable that already had a value (from a set,
+# from an earlier execution of the same or another statement)
+RES_SIG = "action-result-assigned-to-variable-that-has-a-value"
+# input class: the history contains a start_flow event (flow id + flow body): the flow it defines is followed
+DYN_SIG = "flow-defined-by-start_flow-event"
 # how often one decision call is repeated on the used runtime when it changes the state of that runtime
 PUMP_MAX = {"quick": 1500, "thorough": 6000}
 PUMP_NODES = 3  # per program: the first histories (BFS order) whose call changed the state
@@ -1241,9 +1363,10 @@ def explore(task):
     """BFS over all histories of one program within the bounds"""
     idx, main, subs, f2name, opts = task
     max_user, max_dev, seed = opts["max_user"], opts["max_dev"], opts.get("seed", 0)
-    P = label(main, subs, F2_VARIANTS[f2name], opts.get("layout"))
+    P = label(main, subs, F2_VARIANTS[f2name], opts.get("layout"), opts.get("dyn"))
     order = ("f1", "s1", "s2", "f2") if seed % 2 == 0 else ("f2", "s2", "s1", "f1")
-    W = World(P, order)
+    W = World(P, order, opts.get("results"))
+    max_acts = opts.get("max_acts")
     counts = {
         "programs": 1, "states": 0, "transitions": 0, "traces_validated_against_impl": 0,
         "strict_decisions_checked": 0, "left_flow_histories_second_clause_only": 0,
@@ -1258,6 +1381,8 @@ def explore(task):
         "instance_state_compared_after_used_call": 0, "instance_state_changing_calls": 0,
         "repeated_histories": 0, "repetition_calls": 0, "repetition_chains_closed": 0,
         "repetition_chains_cut_at_bound": 0, "repetition_chains_differs": 0, "repetition_chains_blind_completed": 0,
+        "result_assigned_over_earlier_value_checked": 0, "falsy_result_over_truthy_value_checked": 0,
+        "histories_with_start_flow_event": 0, "start_flow_turns_compared_with_generate_events": 0,
     }
     changers = []  # the first histories whose decision call changed the state of the used runtime
     feat_counts = {}
@@ -1277,7 +1402,9 @@ def explore(task):
             viols[sig] = {
                 "signature": sig, "n": n + 1,
                 "size": (prog_size(P), len(script), hist_len, len(W.src)),
-                "what": f"program `{_oneline(W.src)}` script {_show_script(script)}: {text}",
+                "what": f"program `{_oneline(W.src)}`" + (
+                    f" + event start_flow(flow_id={W.dyn['flow']}, flow_body=`{_oneline(W.dyn['body'])}`)" if W.dyn else "")
+                + f" script {_show_script(script, W.dyn)}: {text}",
                 "replay": dict({"source": W.src, "program": P, "order": list(order), "script": script, "k": k,
                                 "kind": kind, "detail": text}, **(extra or {})),
                 "_trace_len": len(W.trace) - 1,
@@ -1297,6 +1424,10 @@ def explore(task):
         for i in r["pending_user"] + ["u0", "j0", unk] + sorted(x for v in r["susp"].values() for x in v):
             if i not in cands:
                 cands.append(i)
+        if W.dyn and r["cur_flow"] is None and not r["susp"]:
+            # no flow is being followed and none was left: a start_flow event may arrive (the flow it carries is
+            # then followed from its start like a configured one)
+            cands.append(W.dyn["start"])
         if seed:
             cands = cands[seed % len(cands):] + cands[:seed % len(cands)]
         for i in cands:
@@ -1306,7 +1437,7 @@ def explore(task):
                 cost, terminal = 0, True
             elif i in r["pending_user"]:
                 cost, terminal = 0, False
-            elif i == "u0" and r["cur_flow"] is None and not r["susp"]:
+            elif (i == "u0" or (W.dyn and i == W.dyn["start"])) and r["cur_flow"] is None and not r["susp"]:
                 cost, terminal = 0, False
             else:
                 cost, terminal = 1, False
@@ -1337,11 +1468,17 @@ def explore(task):
                 counts["nontrivial_histories"] += 1
             for f in r["last"]:
                 feat_counts[f] = feat_counts.get(f, 0) + 1
+            if "exec-result-overwrites" in r["last"]:
+                counts["result_assigned_over_earlier_value_checked"] += 1
+            if "falsy-result-over-truthy-value" in r["last"]:
+                counts["falsy_result_over_truthy_value_checked"] += 1
+            if "flow-from-start_flow-event" in r["cum"]:
+                counts["histories_with_start_flow_event"] += 1
             if r["leave"] == "unknown-intent":
                 counts["leave_unknown_intent_checked"] += 1
             elif r["leave"] and "left-flow" in r["last"]:
                 counts["leave_other_flow_checked"] += 1
-            refstates.add((r["cur_flow"], r["to"], tuple(sorted(r["ctx"].items())),
+            refstates.add((r["cur_flow"], r["to"], tuple(sorted((a, repr(b)) for a, b in r["ctx"].items())),
                            tuple(sorted((a, tuple(b)) for a, b in r["susp"].items()))))
         else:
             counts["left_flow_histories_second_clause_only"] += 1
@@ -1367,8 +1504,10 @@ def explore(task):
                     break
                 if e[0] == "done":
                     turn_results.append(e[2])
-            if turn_results:
+            sf_turn = hist[turn_at - 1]["type"] == "start_flow"
+            if turn_results or sf_turn:
                 counts["turns_compared_with_generate_events"] += 1
+                counts["start_flow_turns_compared_with_generate_events"] += int(sf_turn)
                 turn_script = node_id(ahist, 0)[0]
                 while turn_script and turn_script[-1][0] != "user":
                     turn_script.pop()
@@ -1388,8 +1527,11 @@ def explore(task):
         h2 = hist + steps
         if steps[-1]["type"] == "StartInternalSystemAction":
             counts["action_points"] += 1
+            n_acts = sum(1 for e in ahist if e[0] == "done")
             for res in W.results:
-                if res == 0 and zeros >= opts["max_zero"]:
+                if isinstance(res, int) and res == 0 and zeros >= opts["max_zero"]:
+                    continue
+                if max_acts is not None and n_acts >= max_acts:
                     continue
                 ah2 = ahist + (("done", step[1], res),)
                 W.trace.append(["a"] + list(node_id(ahist, k)) + [res])
@@ -1415,7 +1557,7 @@ def explore(task):
                                  ah2, len(h2), k)
                         continue
                 q.append((ah2, h2 + au[1], ref_run(P, ah2, W.tab) if strict else r,
-                          n_user, dev, depth + 1, terminal, zeros + (res == 0), 0, turn_at))
+                          n_user, dev, depth + 1, terminal, zeros + (isinstance(res, int) and res == 0), 0, turn_at))
         elif step is not None:
             ah2 = ahist + (("bot", step[1]),)
             q.append((ah2, h2, ref_run(P, ah2, W.tab) if strict else r, n_user, dev, depth + 1, terminal, zeros,
@@ -1503,8 +1645,13 @@ def _oneline(src):
     return src.strip().replace("\n\n", " || ").replace("\n", "; ")
 
 
-def _show_script(script):
-    return "[" + ", ".join(f"user {e[1]}" if e[0] == "user" else f"{e[1]} returns {e[2]}" for e in script) + "]"
+def _show_script(script, dyn=None):
+    def one(e):
+        if e[0] == "user":
+            return f"start_flow {dyn['flow']}" if dyn and e[1] == dyn["start"] else f"user {e[1]}"
+        return f"{e[1]} returns {e[2]!r}"
+
+    return "[" + ", ".join(one(e) for e in script) + "]"
 
 
 def _ev_brief(e):
@@ -1535,6 +1682,19 @@ def plan(tier):
                 [p for p in layout_programs("ctl", (2, 3) if tier == "quick" else (2, 3, 4)) if has(p[0], "WN")],
                 "simple", one))
     out.append(("aug", "2-5", aug_programs(), "simple", one))
+    # action results of every JSON type assigned to a variable that already has a value
+    rv = list(RES_VALUES[tier])
+    out.append(("res", "3", res_programs((3,)), "simple",
+                {"max_user": 3, "max_dev": 1, "max_zero": 99, "max_acts": 3, "results": rv}))
+    out.append(("res", "4", res_programs((4,)), "simple",
+                {"max_user": 3, "max_dev": 0, "max_zero": 99, "max_acts": 2 if tier == "quick" else 3, "results": rv[:6]}))
+    if tier != "quick":
+        out.append(("res", "5", res_programs((5,)), "simple",
+                    {"max_user": 3, "max_dev": 0, "max_zero": 99, "max_acts": 2, "results": rv[:5]}))
+    # flows that arrive in the history (start_flow event) instead of the configuration
+    out.append(("dyn", "1+1-3" if tier == "quick" else "1+1-4",
+                dyn_programs((1,), (1, 2, 3)) if tier == "quick" else dyn_programs((1,), (1, 2, 3, 4)), "simple",
+                {"max_user": 3 if tier == "quick" else 4, "max_dev": 1, "max_zero": 1}))
     for k in (3, 6, 12):
         out.append(("loop", f"k={k}", loop_programs((k,)), "simple",
                     {"max_user": k + 3, "max_dev": 1 if k == 3 else 0, "max_zero": 1, "repeat_blind": 1 if k == 3 else 0}))
@@ -1580,6 +1740,7 @@ def run(rep, tier):
             main, subs = pr[0], pr[1]
             ts.append((len(ts), main, subs, f2, dict(bnd, max_depth=60, seed=seed, grammar=key,
                                                      layout=pr[2] if len(pr) > 2 else None,
+                                                     dyn=pr[3] if len(pr) > 3 else None,
                                                      pump_max=PUMP_MAX[tier])))
     budget = 50 if tier == "quick" else 17 * 60
     deadline = time.time() + budget
@@ -1618,7 +1779,8 @@ def run(rep, tier):
     rep.set("violation_classes", {s: {"histories": v["n"], "smallest": v["what"]} for s, v in sorted(by_sig.items())})
     rep.set("violation_classes_found", len(by_sig))
     rep.set("violation_classes_not_in_known_findings", new)
-    rep.set("bounds", {"repetitions_of_a_call_that_changes_the_instance_state": PUMP_MAX[tier],
+    rep.set("bounds", {"action_results_res_groups (a group may use a prefix, see per_group)": [repr(v) for v in RES_VALUES[tier]],
+                       "repetitions_of_a_call_that_changes_the_instance_state": PUMP_MAX[tier],
                        "histories_repeated_per_program": PUMP_NODES,
                        "indentation_steps": [2, 4], "augmented_assignment_right_hand_sides": list(AUG_RHS),
                        "per_group (max user turns / max unexpected turns / max actions returning 0 per history)": bounds,
@@ -1645,6 +1807,12 @@ def run(rep, tier):
         "the docs recommend (not require) two spaces and call the syntax pythonic, so every such text is the same program",
         "`+=` / `-=` are parser shorthands the docs do not describe; conventional meaning (right-hand side first), "
         "right-hand sides from AUG_RHS, evaluated by Python in the reference",
+        "res groups: the stub action returns every value of RES_VALUES (None, 0, False, '', [], {} and truthy "
+        "counterparts; quick: a subset, see bounds) at every execution; conditions `$r == 1`, `$r`, `not $r`, `while $r` "
+        "are read with Python's truth value / comparison",
+        "dyn group: a start_flow event (flow id + body text) is part of the event history (the v1 runtime produces "
+        "and consumes it: generate_flow_from_instructions, generate_events); it is offered only while no flow is "
+        "followed or left, the flow it defines is then a flow like the configured ones",
         "state of the used instance = pickle of (runtime.flow_configs, config.flows, plain attributes of the runtime "
         "object, module-level numbers/containers of nemoguardrails.colang.v1_0.runtime.{sliding,flows,eval,utils,runtime}); "
         "state kept elsewhere (closures, function attributes) is only met by the blind repetitions",
@@ -1657,6 +1825,9 @@ def build_history(W, script, k):
     Decisions and action events are taken from FRESH runtimes: building a history never touches the
     used one."""
     hist, pos, waiting, since = [], 0, True, 0
+    # a program whose histories carry a flow (start_flow event): ONE builder runtime sees the history grow, as the
+    # runtime of the search did (it is still not the used one)
+    builder = W.fresh() if W.dyn else None
     while True:
         if waiting or hist[-1]["type"] == "StartInternalSystemAction":
             if pos == len(script):
@@ -1675,7 +1846,7 @@ def build_history(W, script, k):
             continue
         if pos == len(script) and since == k:
             return hist
-        res = W.eval_fresh(hist)
+        res = W.eval_fresh(hist, builder)
         if res[0] != "ok":
             return None
         since += 1
@@ -1714,6 +1885,9 @@ def replay(rp):
     P = rp["program"]
     W = World(P, tuple(rp.get("order") or ("f1", "s1", "s2", "f2")))
     print(W.src)
+    if W.dyn:
+        print(f"(`user {W.dyn['start']}` in the script below stands for the event start_flow(flow_id={W.dyn['flow']!r}, "
+              f"flow_body={W.dyn['body']!r}))")
     script = [tuple(e) for e in rp["script"]]
     kind = rp.get("kind")
     if kind in ("dependence", "action-dependence", "turn"):
